@@ -277,6 +277,10 @@ func (nb *nameBuilder) Add(b []byte) (offs, length uint16) {
 	if idx, ok := nb.idx[key]; ok {
 		return idx, uint16(len(b))
 	}
+	// offsets into the string storage and string lengths are 16-bit fields
+	if len(nb.data) > 0xFFFF || len(b) > 0xFFFF {
+		panic("name: string storage too large")
+	}
 	idx := uint16(len(nb.data))
 	nb.idx[key] = idx
 	nb.data = append(nb.data, b...)
